@@ -11,7 +11,8 @@ BASE_OPS = {'transfer': 10, 'remove': 1.5, 'fill_to': 2, 'dilute': 1.5, 'new_con
 
 # which clauses belong to which property check is decided by Violation.prop; the profile only biases the workload
 PROFILES = {
-    'C01': {'op_w': dict(BASE_OPS, transfer=16), 'same_plate_p': 0.4, 'unit_w': {'L': 4, 'g': 3, 'mol': 3, 'U': 2}},
+    'C01': {'op_w': dict(BASE_OPS, transfer=16), 'same_plate_p': 0.4, 'unit_w': {'L': 4, 'g': 3, 'mol': 3, 'U': 2},
+            'form_w': [3, 4, 3, 2, 2, 3, 1.0]},
     'C02': {'op_w': dict(BASE_OPS, transfer=20, remove=0.5, dilute=0.5), 'unit_w': {'L': 3, 'g': 3, 'mol': 3, 'U': 3},
             'q_w': [10, 1, 0.5, 0.2, 0.2, 0.05, 0.5, 2], 'long': True},
     'C03': {'op_w': dict(BASE_OPS, transfer=10, fill_to=4, dilute=2.5, new_container=3, drain_fresh=0.4),
